@@ -97,7 +97,7 @@ static void explore(Result& R) {
         motions.push_back({sc::matmul(sc::rot_x_51213(), sc::rot_z_345()), trans[ti], false, "rot_x_51213*rot_z_345+t" + std::to_string(ti)});
     }
     // scaled copies (the property holds for every triangle: the scaled lattice is as good a family as the lattice, and its dot products are not small dyadic numbers)
-    { std::vector<std::pair<double, int>> sc_menu = {{0.3, 0}, {1.7, 1}}; if (th) { sc_menu.push_back({1.1e-6, 0}); sc_menu.push_back({733.1, 2}); sc_menu.push_back({1.0 / 3.0, 1}); }
+    { std::vector<std::pair<double, int>> sc_menu = {{0.3, 0}, {1.7, 1}, {1.1e-6, 0} /* micrometre meshes in metres: products of four lengths are 1e-24 */}; if (th) { sc_menu.push_back({733.1, 2}); sc_menu.push_back({1.0 / 3.0, 1}); sc_menu.push_back({2.3e-9, 0}); }
       for (auto& sm : sc_menu) { Motion a{rots[0], trans[sm.second], false, "scale" + std::to_string(sm.first) + "+t" + std::to_string(sm.second)}; a.s = sm.first; motions.push_back(a); Motion b{sc::rot_z_345(), trans[sm.second], false, "scale" + std::to_string(sm.first) + "*rot_z_345+t" + std::to_string(sm.second)}; b.s = sm.first; motions.push_back(b); } }
     // vertex orders
     std::vector<std::array<int, 3>> orders = {{0, 1, 2}};
